@@ -428,3 +428,32 @@ def tile(it, v, reps, node):
     out = Val(v.term, space=v.space)
     out.axes = list(ax)
     return out
+
+
+def combine_filtered(it, opn, a, b, node):
+    """linear combinations of filtered versions of the same signal: x - lowpass(x) is x filtered with gain 1 - g"""
+    fa = a if isinstance(a, Filtered) else None
+    fb = b if isinstance(b, Filtered) else None
+    other = b if fa is not None else a
+    f = fa or fb
+    if fa is None or fb is None:
+        if isinstance(other, (Val, Unk)) and to_term(other) == f.src and getattr(other, "axes", None) is None:
+            ident = Filtered(f.src, None, None, f.transformed, real=True)
+            fa, fb = (f, ident) if fa is not None else (ident, f)
+        elif opn in ("mul", "div") and is_pyconst(other) and fa is not None:
+            g = mk(opn, f.gain if f.gain is not None else const(1.0), to_term(other))
+            return Filtered(f.src, g, f.axes, f.transformed, f.real)
+        elif opn == "mul" and is_pyconst(other):
+            g = mk("mul", to_term(other), f.gain if f.gain is not None else const(1.0))
+            return Filtered(f.src, g, f.axes, f.transformed, f.real)
+        else:
+            return None
+    if opn not in ("add", "sub") or fa.src != fb.src or fa.transformed != fb.transformed:
+        return None
+    ga = fa.gain if fa.gain is not None else const(1.0)
+    gb = fb.gain if fb.gain is not None else const(1.0)
+    axes = fa.axes or fb.axes
+    if fa.axes is not None and fb.axes is not None:
+        if len(fa.axes) != len(fb.axes) or any(x.sym != y.sym for x, y in zip(fa.axes, fb.axes)):
+            return None
+    return Filtered(fa.src, mk(opn, ga, gb), axes, fa.transformed, fa.real and fb.real)
